@@ -266,7 +266,7 @@ func (root *Root) addTypes(types ...Type) error {
 	return root.ReplaceRefs()
 }
 
-func (root *Root) addExtends(extends ...*Extend) (err error) {
+func (root *Root) addExtends(undo *[]func(), extends ...*Extend) (err error) {
 	for _, x := range extends {
 		if err = root.replaceTypeRefs(x.Adds); err != nil {
 			return
@@ -286,6 +286,7 @@ func (root *Root) addExtends(extends ...*Extend) (err error) {
 		if reflect.TypeOf(x.Adds) != reflect.TypeOf(cur) {
 			return fmt.Errorf("%w: %s, a %T can not extend a %T", ErrTypeMismatch, x.Adds.Name(), x.Adds, cur)
 		}
+		*undo = append(*undo, snapshot(cur))
 		if err = cur.Extend(x.Adds); err != nil {
 			return
 		}
@@ -322,15 +323,22 @@ func (root *Root) ParseReader(r io.Reader) error {
 	// revert to the original version.
 	origTypes := root.types
 	origDirs := root.dirs
+	origSchema := root.schema
 	root.types = origTypes.dup()
 	root.dirs = origDirs.dup()
 
+	// Extending a type changes the type itself, which the original lists
+	// share. Keep what is needed to undo that.
+	var undo []func()
+	if origSchema != nil {
+		undo = append(undo, snapshot(origSchema))
+	}
 	types, extends, err := parseSDL(root, r)
 	if err == nil {
 		err = root.addTypes(types...)
 	}
 	if err == nil {
-		err = root.addExtends(extends...)
+		err = root.addExtends(&undo, extends...)
 	}
 	if err == nil {
 		root.assureSchema()
@@ -339,8 +347,53 @@ func (root *Root) ParseReader(r io.Reader) error {
 	if err != nil {
 		root.types = origTypes
 		root.dirs = origDirs
+		root.schema = origSchema
+		for i := len(undo) - 1; 0 <= i; i-- {
+			undo[i]()
+		}
 	}
 	return err
+}
+
+// snapshot returns a function that restores the parts of a type that an
+// extend can change to what they are now.
+func snapshot(t Type) func() {
+	var base *Base
+	if bt, ok := t.(interface{ base() *Base }); ok {
+		base = bt.base()
+	}
+	var dirs []*DirectiveUse
+	if base != nil {
+		dirs = base.Dirs
+	}
+	restore := func() {}
+	switch tt := t.(type) {
+	case *Schema:
+		fields := tt.fields.dup()
+		restore = func() { tt.fields = fields }
+	case *Object:
+		fields := tt.fields.dup()
+		interfaces := tt.Interfaces
+		restore = func() { tt.fields, tt.Interfaces = fields, interfaces }
+	case *Interface:
+		fields := tt.fields.dup()
+		restore = func() { tt.fields = fields }
+	case *Union:
+		members := tt.Members
+		restore = func() { tt.Members = members }
+	case *Enum:
+		values := tt.values.dup()
+		restore = func() { tt.values = values }
+	case *Input:
+		fields := tt.fields.dup()
+		restore = func() { tt.fields = fields }
+	}
+	return func() {
+		restore()
+		if base != nil {
+			base.Dirs = dirs
+		}
+	}
 }
 
 // ParseFS parses all files in fsys matching at least one of the patterns into
